@@ -76,7 +76,12 @@ def run(prop, seed, tier):
     soft, hard = resource.getrlimit(resource.RLIMIT_AS)
     resource.setrlimit(resource.RLIMIT_AS, (2 << 30, hard))
     with lib.Scratch() as sc:
-        mod, nodes = lib.compile_python(F.Pool.TEXT + ''.join(t for t, _ in structs), sc, 'fz')
+        try:
+            mod, nodes = lib.compile_python(F.Pool.TEXT + ''.join(t for t, _ in structs), sc, 'fz')
+        except lib.CompileError as ex:
+            failures.append({'key': 'build', 'schema': F.Pool.TEXT + ''.join(t for t, _ in structs), 'struct': '-', 'value': '-',
+                             'what': str(ex)[:1500]})
+            structs = []
         for txt, st in structs:
             cls = getattr(mod, st.name)
             for e in '<>':
